@@ -11,7 +11,7 @@ let bop = function
 open Sexp
 let rec e = function
   | Lst [A "nil"] -> ENil | Lst [A "true"] -> ETrue | Lst [A "false"] -> EFalse | Lst [A "va"] -> EVararg
-  | Lst [A "num"; A h] -> ENum (unhex h) | Lst [A "str"; A h] -> EStr (unhex h) | Lst [A "name"; A h] -> EName (unhex h)
+  | Lst [A "num"; A h] -> ENum (unhex h) | Lst [A "str"; A h] -> EStr (unhex h) | Lst [A "brk"; A l; A h] -> EBrk (int_to_nat (int_of_string l), unhex h) | Lst [A "name"; A h] -> EName (unhex h)
   | Lst [A "field"; p; A h] -> EField (e p, unhex h) | Lst [A "index"; p; k] -> EIndex (e p, e k)
   | Lst [A "call"; f; A sg; Lst a] -> ECall (e f, sg = "1", L.map e a) | Lst [A "method"; o; A m; A sg; Lst a] -> EMethod (e o, unhex m, sg = "1", L.map e a)
   | Lst [A "un"; A u; x] -> EUn (uop u, e x) | Lst [A "bin"; A b; l; r] -> EBin (bop b, e l, e r) | Lst [A "paren"; x] -> EParen (e x)
